@@ -571,6 +571,15 @@ func callSSA(i *interpreter, caller *frame, callpos token.Pos, fn *ssa.Function,
 				return r
 			}
 		}
+		// a generated (*T).Unmarshal called directly on bytes of the abstract codec: proto3 wire merge
+		if fn.Name() == "Unmarshal" && len(args) == 2 && fn.Signature.Recv() != nil {
+			if bz, ok := args[1].([]value); ok && len(bz) == 1 {
+				if pm, ok := bz[0].(packedMsg); ok && types.Identical(fn.Signature.Recv().Type(), pm.t) {
+					mergeUnpack(fr, mustDeref(pm.t), args[0].(*value), pm.v)
+					return iface{}
+				}
+			}
+		}
 		// the generated varint-size helpers sovXxx(x uint64) int / runtime.Sov: (bits.Len64(x|1)+6)/7.
 		// On a symbolic operand the ten size classes are enumerated with decisions, so that every
 		// length and offset computed from the result is concrete.
